@@ -61,6 +61,35 @@ CLAIMED = {
         "seeded sequences each executed in a fresh interpreter (identity partition, issubclass matrices, MRO, cache keys, view reads/writes compared inside Coq) plus the documented lattice checked directly.",
    technique="Rocq proof by induction over operation lists with a cache invariant; correspondence by vm_compute on per-interpreter sequences",
    design_ref="DESIGN.md §6 C13"),
+ "C03": dict(
+   text="Proof. Per generated context body (signals, pushed signals, variables, bit/slice targets with constant and run-time index, if/elif/else, match, for-break chains, for-else, helpers with returns in branches; clocked, unclocked and concurrent contexts) "
+        "a kernel-checked theorem: for ALL input sequences the parsed VHDL the compiler emitted on this run has the trace of the documented activation semantics (Models/SeqRef.v: deferred signal updates, last write wins, unwritten holds, immediate variables, "
+        "one-step pushes, first matching branch). Bodies are sampled (corpus per clause + seeded generator); input sequences are proved.",
+   technique="Rocq proof: verified product-reachability checker with verified dead-variable normalisation, applied per compiled body against a Gallina reference interpreter",
+   design_ref="DESIGN.md §6 C03"),
+ "C04": dict(
+   text="Proof. Per generated design (sequential bodies and coroutines) x reset variant (sync/async x active high/low), with defaulted, default-less, noreset, pushed objects, variables and on_reset actions: kernel-checked theorem that for ALL input "
+        "sequences (reset at any clock, for any duration, from any reachable state, followed by any inputs) the parsed VHDL equals 'reset => defaults on the resettable objects, coroutine back to its first state, everything else kept, nothing else runs', observed "
+        "before and after every clock edge (asynchronous resets visible at once); plus unbounded lemmas that the reference returns to its power-up state from ANY state.",
+   technique="Rocq proof: verified product-reachability checker per compiled design against reset-wrapped Gallina reference machines",
+   design_ref="DESIGN.md §6 C04"),
+ "C08": dict(
+   text="Proof. Unbounded theorems: C08_search_sound (the temporaries analysis, modelled after the code, accepts only trees in which every temporary is written before read on every path - any shape/depth), C08_states_sound, C08_cleanup_preserves, and "
+        "C08_def_assign_sound (a definite-assignment checker on the emitted VHDL is sound against the VHDL semantics: no output depends on a temporary left over from an earlier activation). Ties per run: synthetic IR trees through the REAL analysis vs the model (in Coq), "
+        "source programs over a construct x placement grid through the whole compiler vs an independent definite-assignment verdict, and def_assign evaluated in Coq on every emitted process.",
+   technique="Rocq proof by induction on IR trees / VHDL statements; correspondence by vm_compute; verified static checker evaluated on emitted VHDL",
+   design_ref="DESIGN.md §6 C08"),
+ "C09": dict(
+   text="Proof. Unbounded theorems for all widths and values: for every operator/method family the Python fold (Gallina model written after the methods of the current tree) yields exactly type, width and value of the numeric_std operation the backend emits "
+        "(C09_add/sub/truncdiv/floordiv/mod/rem/shl/shr/cmp/concat/logic/neg/abs/inv/view_agrees, C09_type_as_documented; multiplication under the exact guard with the refutation witness = the recorded known finding). Tie per run: real Python objects vs the model, "
+        "exhaustive for widths <= 3 + seeded to width 130 (in Coq); the folded result is also compared directly with the run-time semantics; end-to-end design pairs (ports vs constants) through the real compiler.",
+   technique="Rocq proof (Z arithmetic) relating a Gallina model of the folding methods to the numeric_std semantics; correspondence by exhaustive vm_compute cases",
+   design_ref="DESIGN.md §6 C09"),
+ "C12": dict(
+   text="Proof. Per generated instantiation tree (leaf/mid templates, repeated templates, slice and typed-view actuals, registered and combinational leaves): the emitted interface of every entity equals its declaration, every template is emitted once and before its users, "
+        "every formal is associated exactly once (checked by the fail-closed elaborator), and a kernel-checked theorem that the elaborated hierarchical design and the REAL compilation of the same logic placed inline have equal traces for ALL input sequences.",
+   technique="Rocq proof: verified product-reachability checker, design against design, per generated tree",
+   design_ref="DESIGN.md §6 C12"),
 }
 ALL = ["C%02d" % i for i in range(1, 21)]
 
@@ -88,7 +117,7 @@ def main():
         "setup_cmd": "cd /verif/coq && coq_makefile -f _CoqProject -o Makefile && timeout 3000 make -j16",
         "hooks": {"guard": "COHDL_VERIF", "enable": "no instrumentation hooks are needed; checks import /repo's working tree with PYTHONPATH=/repo (COHDL_VERIF=1 is set but unused)",
                   "baseline_off_cmd": "cd /repo && /venv/bin/python -m pytest -ra -q -p no:cacheprovider --timeout=900 --continue-on-collection-errors",
-                  "source_commits": ["3476bfe", "f803d4c", "1abaf18", "c2629f5", "facaad0", "1fd038a", "3cbec06", "5b71994", "bf02a0d", "bf64bc4", "d02d2a3", "693e83d", "571f6ca", "b791a08", "fd66e52", "cdec138", "648268b", "54fd6e4", "8d199e0"], "add_only": True},
+                  "source_commits": ["3476bfe", "f803d4c", "1abaf18", "c2629f5", "facaad0", "1fd038a", "3cbec06", "5b71994", "bf02a0d", "bf64bc4", "d02d2a3", "693e83d", "571f6ca", "b791a08", "fd66e52", "cdec138", "648268b", "54fd6e4", "8d199e0", "a252909", "1da1fb5", "8d3d526", "615f499", "f68d635", "73c9e08", "72ebcaa", "215d68c", "5bdcba1", "36732b7", "5a04c14"], "add_only": True},
         "engines": [
             {"name": "coq-theories", "path": "/verif/coq", "serves_properties": sorted(CLAIMED), "kind_free_text": "Coq 8.16.1 development: models, semantics, verified checker, property theorems (full .vo build)"},
             {"name": "coq-cases", "path": "/verif/gen", "serves_properties": sorted(CLAIMED), "kind_free_text": "per-run generated obligations evaluated/proved by coqc (vm_compute)"},
